@@ -54,9 +54,49 @@ def getGlob (j : Json) : Except String Glob := do
     else throw s!"glob kind {k}"
   | _ => throw "glob: [kind, s] expected"
 
-def getGlobList (j : Json) (k : String) : Except String (List Glob) := do
-  let a ← getArr j k
-  a.mapM getGlob
+def getRx (j : Json) : Except String Rx := do
+  let a ← j.getArr?
+  match a.toList with
+  | [k, s] => do
+    let k ← k.getStr?
+    let s ← s.getStr?
+    match k with
+    | "lit" => pure (.lit s)
+    | "suffix" => pure (.suffix s)
+    | "suffixCI" => pure (.suffixCI s)
+    | "pre" => pure (.pre s)
+    | "suffixClass" => pure (.suffixClass s)
+    | "invalid" => pure (.invalid s)
+    | _ => throw s!"regex kind {k}"
+  | _ => throw "regex: [kind, s] expected"
+
+def getOptNat (j : Json) (k : String) : Except String (Option Nat) :=
+  match j.getObjVal? k with
+  | .ok Json.null => pure none
+  | .ok v => some <$> v.getNat?
+  | .error _ => pure none
+
+/-- one operation on a filter list: {"o": name, "a","b","i", "vs": [item…], "v": item} -/
+def getLOp {α : Type} (item : Json → Except String α) (j : Json) : Except String (LOp α) := do
+  let o ← getStr j "o"
+  let items : Except String (List α) := do
+    let a ← getArr j "vs"
+    a.mapM item
+  let one : Except String α := do
+    let v ← j.getObjVal? "v"
+    item v
+  match o with
+  | "setSlice" => do pure (.setSlice (← getNat j "a") (← getOptNat j "b") (← items))
+  | "setIndex" => do
+    let i ← (← j.getObjVal? "i").getInt?
+    pure (.setIndex i (← one))
+  | "append" => .append <$> one
+  | "extend" => .extend <$> items
+  | "del" => .del <$> getNat j "i"
+  | "clear" => pure .clear
+  | "assignSelf" => pure .assignSelf
+  | "iaddAttr" => .iaddAttr <$> items
+  | _ => throw s!"unknown filter list operation {o}"
 
 def getOp (j : Json) : Except String Op := do
   let k ← getStr j "k"
@@ -70,10 +110,12 @@ def getOp (j : Json) : Except String Op := do
   | "fpDel" => .fpDel <$> getNat j "i"
   | "fpAppend" => do let p ← j.getObjVal? "p"; .fpAppend <$> getPath p
   | "fpClear" => pure .fpClear
-  | "globSet" => do pure (.globSet (← getBool j "inc") (← getGlobList j "gs"))
-  | "globAppend" => do let g ← j.getObjVal? "g"; pure (.globAppend (← getBool j "inc") (← getGlob g))
-  | "globDel" => do pure (.globDel (← getBool j "inc") (← getNat j "i"))
-  | "globClear" => .globClear <$> getBool j "inc"
+  | "flist" => do
+    let kind ← getStr j "kind"
+    let inc ← getBool j "inc"
+    if kind == "glob" then pure (.glob inc (← getLOp getGlob j))
+    else if kind == "rx" then pure (.rx inc (← getLOp getRx j))
+    else throw s!"filter list kind {kind}"
   | "setName" => .setName <$> getOptStr j "n"
   | "setPieceSize" => .setPieceSize <$> getOptInt j "v"
   | "setMin" => .setMin <$> getOptInt j "v"
@@ -95,6 +137,8 @@ def errName : Err → String
   | .path => "PathError"
   | .commonPath => "CommonPathError"
   | .read => "ReadError"
+  | .regex => "re.error"
+  | .index => "IndexError"
   | .runtime => "RuntimeError"
   | .internal w => "internal:" ++ w
 
@@ -105,6 +149,14 @@ def resJson : Res → Json
 def globJson : Glob → Json
   | .suffix s => jarr [jstr "suffix", jstr s]
   | .infix s => jarr [jstr "infix", jstr s]
+
+def rxJson : Rx → Json
+  | .lit s => jarr [jstr "lit", jstr s]
+  | .suffix s => jarr [jstr "suffix", jstr s]
+  | .suffixCI s => jarr [jstr "suffixCI", jstr s]
+  | .pre s => jarr [jstr "pre", jstr s]
+  | .suffixClass s => jarr [jstr "suffixClass", jstr s]
+  | .invalid s => jarr [jstr "invalid", jstr s]
 
 /-- the projection of a state that is compared with the real `Torrent` -/
 def stateJson (env : Env) (s : St) : Json :=
@@ -119,23 +171,19 @@ def stateJson (env : Env) (s : St) : Json :=
         ("pieces", jopt (fun g => jnat g.count) s.pieces),
         ("pmin", jnat s.pmin), ("pmax", jnat s.pmax),
         ("exGlobs", jarr (s.exGlobs.map globJson)), ("inGlobs", jarr (s.inGlobs.map globJson)),
+        ("exRegexs", jarr (s.exRegexs.map rxJson)), ("inRegexs", jarr (s.inRegexs.map rxJson)),
         ("size", jnat (size s)), ("numPieces", jnat (numPieces s)),
         ("listed", jarr ((filesOf s).map fun f => jarr [jpath f.1, jnat f.2])),
         ("filepaths", jarr ((filepathsOf s).map jpath)),
         ("ready", jbool (isReady env s)),
         ("comment", jopt jstr s.comment)]
 
-/-- `globSet` models `lst[:] = value` only for duplicate-free values disjoint from the current
-    list (outside that, `MonitoredList.__setitem__` belongs to C16) -/
-def wellFormed (s : St) : Op → Bool
-  | .globSet inc gs => gs.all (fun g => !(getGlobs s inc).contains g) && gs.eraseDups.length == gs.length
-  | _ => true
-
 /-- op `c09.run` : {env, ops} ↦ per step: projected model state, outcome, `hyp` (all operations so
     far satisfy `OpOk` = hypothesis `AllOk` of `C09_inv_history` on this prefix), `hypC` (the prefix
     satisfies the weaker `AllOkC` of `C09_inv_history_corrected`; `AllOk → AllOkC` is
     `C09_allOk_corrected`, so it is only evaluated once `hyp` is lost), `inv` (the executable
-    specification `Inv` on the model state) -/
+    specification `Inv` on the model state), `fok` (`FiltersOk`: the filter lists are duplicate-free
+    and the regex lists hold only valid patterns — `C09_filters_ok_history`, no hypothesis) -/
 def runOps (j : Json) : Except String Json := do
   let env ← getEnv j
   let ops ← (← getArr j "ops").mapM getOp
@@ -148,8 +196,8 @@ def runOps (j : Json) : Except String Json := do
       (s', hyp', k + 1,
        jobj [("state", stateJson env s'), ("res", resJson r), ("hyp", jbool hyp'),
              ("hypC", jbool hypC),
-             ("opOk", jbool (decide (OpOk s op))), ("wf", jbool (wellFormed s op)),
-             ("inv", jbool (decide (Inv s')))] :: out)
+             ("opOk", jbool (decide (OpOk s op))),
+             ("inv", jbool (decide (Inv s'))), ("fok", jbool (decide (FiltersOk s')))] :: out)
   return jobj [("steps", jarr out.reverse), ("init", stateJson env Attrs.init),
                ("initInv", jbool (decide (Inv Attrs.init)))]
 
